@@ -12,7 +12,7 @@ def header_version(coin, cls, rng):
     t = THRESH.get(coin)
     if t is None:
         # coins without AuxPoW: any version, including ones above the other coins' thresholds
-        return rng.choice([1, 2, 0x20000000, 0x620102, 0x10101, 0x7fffffff, 0x00620104]) if cls else rng.choice([1, 4])
+        return rng.choice([1, 2, 0x20000000, 0x620102, 0x10101, 0x7fffffff, 0x00620104, 0xffffffff, 0xffffffff, 0xfffffffe, 0x80000000]) if cls else rng.choice([1, 4])
     if cls == 0:
         return rng.choice([1, 2, t - 1])
     if cls == 1:
